@@ -183,7 +183,7 @@ func cmdUnit(args []string) {
 		if *dumpOb != "" {
 			for _, ob := range u.obs {
 				if ob.Name == *dumpOb {
-					fmt.Println(u.query(ob, false, true))
+					fmt.Println(u.queryV(ob, false, true, os.Getenv("GOVC_MACRO") != ""))
 				}
 			}
 			continue
